@@ -227,9 +227,10 @@ def build():
                 ctx.check("same-register", out[0].reg == Q[0])
                 N, D = out[0].imm0.value, out[0].imm1.value
                 if hwv:
-                    # N / 2**D == n / 2**d  with D == 4:   N == n * 2**(4-d)   (d in 0..4 on this path)
-                    ok = ctx.and_(ctx.eq(D, 4), *[ctx.implies(ctx.eq(d, k), ctx.eq(N, ctx.mul(n, 2 ** (4 - k)))) for k in range(5)])
+                    # N / 2**D == n / 2**d modulo a full turn (2 pi = 32 units of pi/16: global phase only), with D == 4   (d in 0..4 on this path)
+                    ok = ctx.and_(ctx.eq(D, 4), *[ctx.implies(ctx.eq(d, k), ctx.eq(ctx.mod(N, 32), ctx.mod(ctx.mul(n, 2 ** (4 - k)), 32))) for k in range(5)])
                     ctx.check("hardware-normalised-angle-equal", ok)
+                    ctx.check("hardware-normalised-rotation-is-encodable (numerator fits the 8-bit operand)", ctx.and_(ctx.ge(N, 0), ctx.le(N, 255)))
                 else:
                     ctx.check("operands-passed-through", ctx.and_(ctx.eq(N, n), ctx.eq(D, d)))
             return f
